@@ -78,6 +78,7 @@ def r_read_auto(repo, rep, R='R8.5'):
     seen = False
     bad = []
     cut = []
+    changed = []
     for st, o in SymExec(fn, unroll=1).run():
         for c_ in all_calls(st, N('_AutoLineReader')):
             seen = True
@@ -106,6 +107,14 @@ def r_read_auto(repo, rep, R='R8.5'):
                     if t[0] == 'elem':
                         return not any(x[0] == 'call' and x[1][0] == 'attr' and x[1][2] in ('split', 'rsplit') for x in subterms(t[1]))
                     return t[0] == 'call' and t[1][0] == 'attr' and t[1][2] in ('strip', 'rstrip', 'lstrip') and file_line(t[1][1])
+                # any other function of the whole line (unicodedata.normalize, lower(), encode/decode, expandtabs ..): the
+                # words of the file are then no longer the words that are read
+                if s_[0] == 'call' and any(file_line(a_) for a_ in s_[2]) and not (s_[1][0] == 'attr' and s_[1][2] in ('join',)) \
+                        and s_[1] not in (N('str'), N('_AutoLineReader')):
+                    changed.append(show(s_)[:80])
+                if s_[0] == 'call' and s_[1][0] == 'attr' and file_line(s_[1][1]) and s_[1][2] not in (
+                        'strip', 'rstrip', 'lstrip', 'split', 'rsplit', 'partition', 'rpartition', 'replace', 'translate', 'startswith', 'endswith', 'splitlines'):
+                    changed.append(show(s_)[:80])
                 if s_[0] == 'sub' and file_line(s_[1]) and s_[2][0] == 'slice':
                     cut.append(show(s_)[:80])
                 if s_[0] == 'sub' and s_[2][0] == 'const' and s_[1][0] == 'call' and s_[1][1][0] == 'attr' and file_line(s_[1][1][1]) \
@@ -115,6 +124,8 @@ def r_read_auto(repo, rep, R='R8.5'):
         raise AnalysisError('%s: read_auto never constructs the line reader' % RD)
     rep.check(not cut, R, w, 'read_auto:whole-line', 'the reader gets the whole line (only surrounding blanks removed)',
               'only a part of the line reaches the reader: %s -- a word or tag containing the marker is cut off' % sorted(set(cut))[:2])
+    rep.check(not changed, R, w, 'read_auto:line-as-written', 'the text of the line is handed on as it is in the file (no case / encoding / normal-form conversion)',
+              'the whole line goes through %s before it is read: tokens the conversion touches come back as other words' % sorted(set(changed))[:2])
     rep.check(not bad, R, w, 'read_auto:field-wise-repair', 'treebank glitches are repaired on whole fields only; every other field reaches the reader as written',
               'the line is rewritten as a whole before it is read: %s -- fields that only contain the pattern are changed too' % sorted(set(bad))[:2])
 
